@@ -423,10 +423,23 @@ fn exec_c<C: Suite>(scen: &Scenario) -> Exec {
             }
         }
         // (e) explicit randomisers through the deprecated entry point, zero included
-        for which in ["zero", "random"] {
-            let rs = if which == "zero" { zero::<C>() } else { sc_random_nonzero::<C>(&mut sp) };
-            let rz = Randomizer::<C>::from_scalar(rs);
-            let p5 = RandomizedParams::<C>::from_randomizer(&vk, rz);
+        for which in ["zero", "random", "deprecated_new"] {
+            // "deprecated_new": the older entry point that derives the randomiser from fresh randomness and the whole package
+            #[allow(deprecated)]
+            let (rs, rz, p5) = if which == "deprecated_new" {
+                let rng = SimRng::good(stream(scen.seed, scen.run, &format!("c17/deprecated/{inst}")));
+                match RandomizedParams::<C>::new(&vk, &pkg, rng) {
+                    Ok(p) => {
+                        let rz = *p.randomizer();
+                        (sc_from_bytes::<C>(&rz.serialize()).unwrap(), rz, p)
+                    }
+                    Err(e) => return Exec::Violation(viol("C17.explicit_randomizer_failed", format!("RandomizedParams::new = {e:?}")), rep),
+                }
+            } else {
+                let rs = if which == "zero" { zero::<C>() } else { sc_random_nonzero::<C>(&mut sp) };
+                let rz = Randomizer::<C>::from_scalar(rs);
+                (rs, rz, RandomizedParams::<C>::from_randomizer(&vk, rz))
+            };
             #[allow(deprecated)]
             let sh5: Result<BTreeMap<Identifier<C>, SignatureShare<C>>, _> = members.iter().enumerate().map(|(j, kp)| frost_rerandomized::sign(&pkg, &nn[j], kp, rz).map(|z| (*kp.identifier(), z))).collect();
             let sh5 = match sh5 {
